@@ -43,7 +43,7 @@ Print Assumptions C14_hide_attrs_frame.
    exception_only on a non-exception context registers nothing *)
 Theorem C14_exception_only_split : forall P names nm d c xonly isexc,
   effective_ctx P nm d = (c, xonly, isexc) ->
-  make names (args_kw (with_ctx (d_args d) c)) <> None ->
+  make names (args_kw (with_ctx (forwarded_args P (d_dir d) (d_args d)) c)) <> None ->
   let regs := regs_of_decl P names nm d in
   under_cls view_classifier regs = negb xonly
   /\ under_cls exc_classifier_id regs = isexc && negb (xonly && negb isexc)
